@@ -23,6 +23,12 @@ VARIANTS = [
     B("detector-no-last", "    peak_indices = np.insert(peak_indices, len(peak_indices), len(values) - 1)\n", "    peak_indices = np.insert(peak_indices, len(peak_indices), len(values))\n", "R-IDX"),
     B("ncyc-step-1", "    n_cycs = 0.5 * np.arange(len(indys))\n", "    n_cycs = 1.0 * np.arange(len(indys))\n", "R-NCYC"),
     B("ncyc-origin-shift", "        svalue = -0.25\n", "        svalue = -0.75\n", "R-NCYC"),
+    B("ncyc-insert-when-present", "    if indys[0] != 0:\n        indys = np.insert(indys, 0, 0)\n", "    if indys[0] == 0:\n        indys = np.insert(indys, 0, 0)\n", "R-NCYC"),
+    B("ncyc-insert-at-1", "        indys = np.insert(indys, 0, 0)\n", "        indys = np.insert(indys, 1, 0)\n", "R-NCYC"),
+    B("ncyc-insert-index-1", "        indys = np.insert(indys, 0, 0)\n", "        indys = np.insert(indys, 0, 1)\n", "R-NCYC"),
+    B("ncyc-half-over-arange", "    n_cycs = 0.5 * np.arange(len(indys))\n", "    n_cycs = 0.5 / np.arange(len(indys))\n", "R-NCYC"),
+    B("ncyc-shift-from-2", "    n_cycs[1:] += svalue\n", "    n_cycs[2:] += svalue\n", "R-NCYC"),
+    B("ncyc-shift-from-0", "    n_cycs[1:] += svalue\n", "    n_cycs[0:] += svalue\n", "R-NCYC"),
     B("ncyc-switched-uses-all", "        indys = get_switched_peak_array_indices(values)\n    else:", "        indys = get_peak_array_indices(values)\n    else:", "R-NCYC"),
     B("ncyc-length", "    return np.interp(np.arange(len(values)), indys, n_cycs)\n", "    return np.interp(np.arange(len(indys)), indys, n_cycs)\n", "R-NCYC"),
     B("ncyc-else-silent", "    else:\n        raise ValueError('start must be either \"origin\" or \"peak\"')\n", "    else:\n        svalue = 0.5\n", "R-NCYC"),
